@@ -44,15 +44,28 @@ def register(add, parse, find_func, const_int, rat_of, ShapeError, module_assign
             if isinstance(n, ast.Compare) and getattr(n.left, "attr", "") == "interval" and isinstance(n.ops[0], ast.NotEq) \
                     and isinstance(n.comparators[0], ast.Constant):
                 compared = n.comparators[0].value
-    # source flag: does `run` start every trigger afresh (`for t in <strategy.triggers>: t.reset()`) and hand the strategy's trigger list back
-    # as it found it (`finally: self._strategy.triggers = <the list taken before>`)?  (C02 rerun clause, C18 "every bar grid")
-    resets = any(isinstance(n, ast.For) and any(isinstance(c, ast.Call) and getattr(c.func, "attr", "") == "reset" and
-                                                 getattr(c.func.value, "id", None) == getattr(n.target, "id", 0) for c in ast.walk(n))
-                 for n in ast.walk(run))
+    # source flag: does a run start every installed trigger afresh — a loop `for t in <…>.triggers: t.reset()` in `run` or, so that the triggers
+    # installed by initialize() are covered as well, in `_run` AFTER the call of init_strategy() — and hand the strategy's trigger list back as it
+    # found it (`finally: self._strategy.triggers = <the list taken before>`)?  (C02 rerun clause, C18 "every bar grid")
+    def reset_loops(fn):
+        return [n for n in ast.walk(fn) if isinstance(n, ast.For) and getattr(n.iter, "attr", getattr(n.iter, "id", "")) in ("triggers", "triggers_before_run")
+                and any(isinstance(c, ast.Call) and getattr(c.func, "attr", "") == "reset" and
+                        getattr(c.func.value, "id", None) == getattr(n.target, "id", 0) for c in ast.walk(n))]
+    resets_all = False            # every trigger installed when the loop starts, including the ones initialize() installs
+    resets_given = bool(reset_loops(run))   # only the ones installed before the run
+    for body in bodies[1:]:
+        inits = [n.lineno for n in ast.walk(body) if isinstance(n, ast.Call) and getattr(n.func, "attr", "") == "init_strategy"]
+        loops = [n.lineno for n in ast.walk(body) if isinstance(n, (ast.With, ast.For)) and n not in reset_loops(body)
+                 and any(isinstance(c, ast.Call) and getattr(c.func, "attr", "") == "before_bar" for c in ast.walk(n))]
+        for n in reset_loops(body):
+            if getattr(n.iter, "attr", "") == "triggers" and inits and min(inits) < n.lineno and (not loops or n.lineno < min(loops)):
+                resets_all = True
     restores = any(isinstance(n, ast.Try) and any(isinstance(a, ast.Assign) and getattr(a.targets[0], "attr", "") == "triggers"
                                                   for f in n.finalbody for a in ast.walk(f)) for n in ast.walk(run))
-    add("coreRunResetsTriggers", "Bool", "true" if (resets and restores) else "false",
-        "Actuator.run resets every trigger of the strategy before the run and restores strategy.triggers afterwards")
+    add("coreRunResetsTriggers", "Bool", "true" if (resets_all and restores) else "false",
+        "Actuator.run starts every installed trigger afresh (after initialize(), before the first bar) and restores strategy.triggers afterwards")
+    add("coreRunResetsGivenTriggersOnly", "Bool", "true" if (resets_given and not resets_all and restores) else "false",
+        "Actuator.run resets only the triggers installed before the run (those installed by initialize() keep their state)")
     if default is None or compared is None or default != compared:
         raise ShapeError(f"Actuator.interval default {default!r} and the literal run() compares with {compared!r} should be the same string")
     add("coreRawIntervalSec", "Int", f"({_seconds(default, ShapeError)})", f"the interval string {default!r} for which run() does not resample, in seconds")
